@@ -308,6 +308,10 @@ class _ConfigParserDict(collections.OrderedDict):
     key = self._key_transform(key)
     return super(_ConfigParserDict, self).__delitem__(key)
 
+  def __contains__(self, key):
+    key = self._key_transform(key)
+    return super(_ConfigParserDict, self).__contains__(key)
+
 
 class _RawConfigParser(configparser.RawConfigParser):
 
